@@ -67,12 +67,12 @@ Definition synced (ew : nat) (s : st) (o : oev) : st := set_errworker s (mem ew 
 Definition mark_kill (s : st) (k : nat) : st :=
   on_worker s k (fun i => {| w_conn := w_conn i; w_ready := w_ready i; w_errs := w_errs i;
                              w_recent := w_recent i; w_killreq := true;
-                             w_delivered := w_delivered i |}).
+                             w_delivered := w_delivered i; w_fork := w_fork i |}).
 
 Definition set_kill (s : st) (k : nat) (b : bool) : st :=
   on_worker s k (fun i => {| w_conn := w_conn i; w_ready := w_ready i; w_errs := w_errs i;
                              w_recent := w_recent i; w_killreq := b;
-                             w_delivered := w_delivered i |}).
+                             w_delivered := w_delivered i; w_fork := w_fork i |}).
 
 (* the model's own kill request is replaced by what was observed *)
 Definition observed_kills (before after : st) (o : oev) : st :=
@@ -191,11 +191,20 @@ Definition violations (c : cfg) (em : bool) (pr ew : nat) (groups : list (N * li
   let s' := model_next c em ew s o in
   (* tracked > Max, reported where the count grows beyond Max. The known
      "forks in flight are not counted" (151) only when the count grew by a fork
-     completion and no tracked worker was forked on the request of a round that
-     asked for more than its free slots *)
+     completion, no tracked worker was forked on the request of a round that
+     asked for more than its free slots, and the forks in flight account for
+     the excess (Props bound_partial: tracked + in flight <= Max + peak - 1,
+     here with the implementation's tracked count) *)
   (if negb (bound_ok c (o_tracked o)) && (prev <? o_tracked o)
-   then [(2, if is_ins (o_ev o) && negb (tainted_pool (taint_next c tn o) s') then 151 else 150)]
+   then [(2, if is_ins (o_ev o) && negb (tainted_pool (taint_next c tn o) s')
+                && (s_foreign s' || bound_partial_obs c (o_tracked o) s')
+             then 151 else 150)]
    else [])
+  (* WorkerForked added an entry instead of moving one *)
+  ++ (match o_ev o with
+      | ERekey _ _ => if rekey_ok prev (o_tracked o) then [] else [(2, 160)]
+      | _ => []
+      end)
   (* a round of the normalizer requested more forks than the free slots it saw *)
   ++ (match o_ev o, o_round o with
       | ENormalize, Some (_, n, _) => if round_ok c (o_tracked o) n then [] else [(2, 158)]
